@@ -221,8 +221,17 @@ class Data:
             X = X.tolist()
         self.X = X
         Xa = np.asarray(X, dtype=float)
+        # hand-made affinities as users build them: tiny negative round-off residues where the distance is zero,
+        # a slightly asymmetric kernel (the linear kernel has negative entries anyway), sometimes Fortran order
         self.K = Xa @ Xa.T
         self.D = np.sqrt(((Xa[:, None, :] - Xa[None, :, :]) ** 2).sum(-1))
+        idx = rng.integers(0, n, size=3)
+        self.D[idx, idx] = -1e-9 * (1 + np.arange(3))
+        i, j = int(idx[0]), int((idx[0] + 1) % n)
+        self.D[i, j] -= 2e-9
+        self.K[i, j] += 1e-9
+        if rng.random() < 0.3:
+            self.K, self.D = np.asfortranarray(self.K), np.asfortranarray(self.D)
         self.kind, self.n, self.d = kind, n, d
 
 
@@ -880,8 +889,238 @@ def stream_malformed(chk, i, rng):
 
 
 # ------------------------------------------------------------------------------------------ main
+# ------------------------------------------------------------------------------------------ stream: args (representations of the arguments)
+REPS = ["fortran", "readonly", "view", "int64", "float32", "list", "residue"]
+
+
+def represent(A, rep):
+    """The same values in another representation (A is a float64 C-contiguous array with integral values)."""
+    if A is None:
+        return None
+    if rep == "fortran":
+        return np.asfortranarray(A)
+    if rep == "readonly":
+        B = A.copy()
+        B.setflags(write=False)
+        return B
+    if rep == "view":
+        big = np.repeat(np.repeat(A, 2, 0), 2, 1) if A.ndim == 2 else np.repeat(A, 2, 0)
+        return big[::2, ::2] if A.ndim == 2 else big[::2]
+    if rep == "int64":
+        return A.astype(np.int64)
+    if rep == "float32":
+        return A.astype(np.float32)
+    if rep == "list":
+        return A.tolist()
+    return A.copy()
+
+
+def approx_same(a, b, tol=1e-9):
+    """Equality of results across representations: labels / integers / structure exactly, floats to tol*(1+scale)."""
+    if isinstance(a, (list, tuple)) and isinstance(b, (list, tuple)):
+        return len(a) == len(b) and all(approx_same(x, y, tol) for x, y in zip(a, b))
+    if isinstance(a, dict) and isinstance(b, dict):
+        return set(a) == set(b) and all(approx_same(a[k], b[k], tol) for k in a)
+    if a is None or b is None or isinstance(a, (str, bool)) or isinstance(b, (str, bool)):
+        return a is b or a == b
+    if isinstance(a, (np.ndarray, np.generic, int, float)) and isinstance(b, (np.ndarray, np.generic, int, float)):
+        x, y = np.asarray(a), np.asarray(b)
+        if x.shape != y.shape:
+            return False
+        if x.dtype == object or y.dtype == object:
+            return approx_same(list(x.ravel()), list(y.ravel()), tol)
+        if x.dtype.kind in "iub" and y.dtype.kind in "iub":
+            return bool(np.array_equal(x, y))
+        x, y = x.astype(float), y.astype(float)
+        scale = np.maximum(np.abs(x), np.abs(y))
+        return bool(np.all((np.abs(x - y) <= tol * (1 + scale)) | (np.isnan(x) & np.isnan(y))))
+    if hasattr(a, "__dict__") and hasattr(b, "__dict__") and type(a).__name__ == type(b).__name__:
+        return approx_same(vars(a), vars(b), tol)
+    return a == b
+
+
+def fitted_image(e):
+    hp = hp_names(e)
+    return {k: v for k, v in vars(e).items() if k not in hp and k not in SKIP and k not in ("optimiser_", "input_data_")}
+
+
+def args_config(name, rng, d):
+    cfg, _ = draw_config(name, rng, d)
+    cfg["verbose"] = False
+    r = rng.random()
+    # most cases go through a precomputed affinity: it is the caller's array that travels through the library
+    if "kernel" in cfg:
+        cfg["kernel"] = "precomputed" if r < 0.75 else cfg["kernel"]
+    if "metric" in cfg:
+        cfg["metric"] = "precomputed" if r < 0.75 else cfg["metric"]
+    if "gemini" in cfg and r < 0.75:
+        cfg["gemini"] = [G.MMDGEMINI(kernel="precomputed"), G.WassersteinGEMINI(metric="precomputed"),
+                         G.MMDGEMINI(kernel="precomputed", ovo=True), G.WassersteinGEMINI(metric="precomputed", ovo=True)][int(rng.integers(4))]
+    if "dynamic" in cfg:
+        cfg["dynamic"] = False
+    return fix_config(cfg)
+
+
+class GridData:
+    """Integral values: every dtype carries them exactly.  K has negative entries and is not symmetric; D has negative entries."""
+
+    def __init__(self, rng, n, d):
+        self.X = np.round(impl.blobs(rng, n, d, k=2) * 2)
+        self.K = self.X @ self.X.T
+        self.D = np.abs(self.X[:, None, :] - self.X[None, :, :]).sum(-1)
+        idx = rng.integers(0, n, size=2)
+        self.D[idx, idx] = -1.0
+        i, j = int(idx[0]), int((idx[0] + 1) % n)
+        self.D[i, j] -= 1.0
+        self.K[i, j] += 1.0
+        self.n, self.d, self.kind = n, d, "grid"
+
+
+def stream_args(chk, i, rng):
+    """Every public entry point with the same values in other representations: the caller's arrays must be untouched,
+    a read-only or non-contiguous or differently typed argument must give the result of the float64 C-contiguous call."""
+    names = list(impl.ALL_ESTIMATORS)
+    name = names[i % len(names)]
+    d = 3
+    data = GridData(rng, int(rng.integers(8, 13)), d)
+    cfg = args_config(name, rng, d)
+    replay = {"estimator": name, "config": {k: repr(v) for k, v in cfg.items()}, "n": data.n}
+    probe = build(name, cfg)
+    aff0 = affinity_for(probe, data)
+    methods = [m for m in ["fit", "fit_predict", "predict", "predict_proba", "score", "path"] if callable(getattr(probe, m, None))]
+    pkw = dict(alpha_multiplier=3.0, min_features=int(rng.integers(1, d)), max_patience=1)
+    nontrivial = False
+    for m in methods:
+        kw = pkw if m == "path" else None
+
+        def run(Xv, Av, tag):
+            e = build(name, cfg)
+            if m in ("predict", "predict_proba", "score"):
+                o0 = invoke(chk, e, "fit", data, dict(replay, method=m, rep=tag, stage="prefit"), X=data.X.copy(), y=None if aff0 is None else aff0.copy())
+                if o0.exc is not None:
+                    return None, None
+            o = invoke(chk, e, m, data, dict(replay, method=m, rep=tag), kwargs=kw, X=Xv, y=Av)
+            return o, e
+        ref, eref = run(data.X.copy(), None if aff0 is None else aff0.copy(), "float64")
+        if ref is None or ref.exc is not None:
+            chk.dist[f"args-ref-raises:{name}.{m}"] += 1
+            continue
+        which = [str(r) for r in rng.choice(REPS, size=3, replace=False)]
+        for rep in which:
+            target = "affinity" if (aff0 is not None and m not in ("predict", "predict_proba") and rng.random() < 0.7) else "X"
+            if rep == "residue":
+                if aff0 is None:
+                    continue
+                target = "affinity"
+                Av = aff0.copy()
+                Av[np.diag_indices(data.n)] -= 1e-9 * (1 + np.arange(data.n) % 3)
+                Xv = data.X.copy()
+            elif target == "affinity":
+                if rep == "list":
+                    rep = "fortran"
+                Xv, Av = data.X.copy(), represent(aff0, rep)
+            else:
+                Xv, Av = represent(data.X, rep), None if aff0 is None else aff0.copy()
+            tag = f"{target}:{rep}"
+            o, e = run(Xv, Av, tag)
+            chk.dist[f"args:{tag}"] += 1
+            nontrivial = True
+            if o is None:
+                continue
+            rp = dict(replay, method=m, rep=tag)
+            if o.exc is not None:
+                # the float64 call on the same values succeeded and (checked inside invoke) wrote nothing: a refusal of the
+                # representation is an acceptance matter (C04/C16), recorded, unless it is a refused in-place write
+                msg = str(o.exc)
+                if "read-only" in msg and ("assignment destination" in msg or "output array" in msg):
+                    chk.fail(f"{m}:writes-into-argument", f"{name}.{m} tried to write into the caller's read-only {target}: {o.exc!r}", rp, layer="L3")
+                else:
+                    chk.dist[f"repr-rejected:{name}.{m}:{tag}:{type(o.exc).__name__}"] += 1
+                    note = f"representation refused (acceptance matter, reported): {name}.{m} with {tag}: {type(o.exc).__name__}: {msg[:90]}"
+                    if note not in chk.notes:
+                        chk.notes.append(note)
+                continue
+            if rep in ("float32", "residue"):
+                continue            # computations legitimately differ (float32 arithmetic / other values): side effects only
+            if not approx_same(o.result if o.result is not e else None, ref.result if ref.result is not eref else None) \
+                    or not approx_same(fitted_image(e), fitted_image(eref)):
+                chk.fail(f"{m}:representation-changes-result", f"{name}.{m} gives another result when the same values arrive as {tag}", rp, layer="L3")
+    chk.traces += 1
+    chk.count(("args", name, tuple(sorted((k, repr(v)) for k, v in cfg.items() if k in ("kernel", "metric", "gemini", "batch_size")))) if nontrivial else None)
+
+
+def stream_gemini_args(chk, i, rng):
+    """The objectives themselves: gemini(P, A), evaluate, compute_affinity leave P, A, X, y untouched in every representation."""
+    gl = impl.all_geminis()
+    label, fac = gl[i % len(gl)]
+    n, K, d = int(rng.integers(5, 10)), int(rng.integers(1, 4)), 3
+    data = GridData(rng, n, d)
+    P = impl.softmax_rows(rng.normal(size=(n, K)) * float(rng.choice([0.5, 3.0, 40.0])))
+    g = fac()
+    is_w = isinstance(g, G.WassersteinGEMINI)
+    aff = data.D if is_w else data.K
+    pre = type(g)(ovo=g.ovo, **({"metric": "precomputed"} if is_w else {"kernel": "precomputed"})) if isinstance(g, (G.MMDGEMINI, G.WassersteinGEMINI)) else None
+    replay = {"gemini": label, "n": n, "K": K}
+    reps = ["float64"] + [str(r) for r in rng.choice(REPS, size=3, replace=False)]
+    base = {}
+    for rep in reps:
+        for what in ("call", "call_grad", "evaluate", "affinity", "affinity_pre"):
+            if what == "affinity_pre" and pre is None:
+                continue
+            A = aff.copy()
+            if rep == "residue":
+                A[np.diag_indices(n)] -= 1e-9
+            Pv, Av, Xv = P.copy(), A, data.X.copy()
+            if rep not in ("float64", "residue"):
+                r2 = "fortran" if rep == "list" else rep
+                if what in ("affinity", "affinity_pre"):
+                    Xv, Av = (represent(data.X, rep), A) if rng.random() < 0.5 else (Xv, represent(A, r2))
+                else:
+                    Pv, Av = (represent(P, r2) if rep not in ("int64",) else Pv, A) if rng.random() < 0.4 else (Pv, represent(A, r2))
+            before = canon([Pv, Av, Xv])
+            pim = canon(vars(g)), (None if pre is None else canon(vars(pre)))
+            try:
+                if what == "call":
+                    out = g(Pv, Av)
+                elif what == "call_grad":
+                    out = g(Pv, Av, return_grad=True)
+                elif what == "evaluate":
+                    out = g.evaluate(Pv, Av, return_grad=True)
+                elif what == "affinity":
+                    out = g.compute_affinity(Xv)
+                else:
+                    out = pre.compute_affinity(Xv, Av)
+                exc = None
+            except Exception as ex:      # noqa
+                out, exc = None, ex
+            rp = dict(replay, entry=what, rep=rep)
+            chk.dist[f"gemini-args:{what}:{rep}"] += 1
+            if canon([Pv, Av, Xv]) != before:
+                chk.fail(f"gemini:{what}:mutates-input", f"{label}.{what} changed the caller's predictions / affinity / data ({rep})", rp, layer="L3")
+            if (canon(vars(g)), (None if pre is None else canon(vars(pre)))) != pim:
+                chk.fail(f"gemini:{what}:mutates-self", f"{label}.{what} changed the objective's own parameters", rp, layer="L3")
+            if what == "affinity_pre" and exc is None and out is not None and not isinstance(Av, list) and np.shares_memory(out, Av):
+                # the returned affinity may be the caller's array itself: nothing may have been written through it
+                pass
+            if rep == "float64":
+                base[what] = (out, exc)
+                continue
+            b_out, b_exc = base.get(what, (None, None))
+            if exc is not None and b_exc is None:
+                msg = str(exc)
+                if "read-only" in msg and ("assignment destination" in msg or "output array" in msg):
+                    chk.fail(f"gemini:{what}:writes-into-argument", f"{label}.{what} tried to write into a read-only argument: {exc!r}", rp, layer="L3")
+                else:
+                    chk.dist[f"repr-rejected:{label}.{what}:{rep}:{type(exc).__name__}"] += 1
+                continue
+            if exc is None and b_exc is None and rep not in ("float32", "residue") and not approx_same(out, b_out):
+                chk.fail(f"gemini:{what}:representation-changes-result", f"{label}.{what} gives another value when the same numbers arrive as {rep}", rp, layer="L3")
+    chk.count(("gemini-args", label, n, K))
+
+
 STREAMS = {"table": (stream_table, 19, 19), "trace": (aborting(stream_trace), 54, 540), "history": (aborting(stream_history), 180, 2700),
-           "mlcl": (aborting(stream_mlcl), 34, 510), "roundtrip": (stream_roundtrip, 54, 540), "malformed": (aborting(stream_malformed), 64, 640)}
+           "mlcl": (aborting(stream_mlcl), 34, 510), "roundtrip": (stream_roundtrip, 54, 540), "malformed": (aborting(stream_malformed), 64, 640),
+           "args": (aborting(stream_args), 54, 540), "gemini_args": (stream_gemini_args, 26, 260)}
 
 
 def main():
@@ -908,7 +1147,10 @@ def main():
                     "model's flow), history (random sequences of fit/fit_predict/predict/predict_proba/score/set_params/restore/path/clone, length <= 8 quick / 20 "
                     "thorough, two datasets of different shape, then fit and path compared bit for bit with a fresh object; caller arrays and get_params compared "
                     "around every call), mlcl (same on must-link/cannot-link decorated models), roundtrip (get_params/set_params/clone per hyper-parameter), "
-                    "malformed (NaN data, unfitted calls, invalid parameters, objective failing mid-fit/mid-path, then the same comparison). "
+                    "malformed (NaN data, unfitted calls, invalid parameters, objective failing mid-fit/mid-path, then the same comparison), "
+                    "args (every public entry point of every class, mostly with precomputed affinities holding negative and asymmetric entries, the same values as "
+                    "Fortran / read-only / non-contiguous / int64 / float32 / list / round-off-residue arguments: arguments untouched, same result as the float64 call), "
+                    "gemini_args (the same for gemini(P, A), evaluate and compute_affinity of the 13 objectives). "
                     "non-trivial = the history contains at least one fit/path before the final one (or the malformed call did raise); distinct = distinct "
                     "(estimator, plan / configuration) signature")
 
